@@ -37,7 +37,11 @@ def grishagin_record(fn, maxdepth=16):
     opt = [float(t) for t in p.knownOptimum[0].point.floatVariables]
     optv = float(p.knownOptimum[0].functionValues[0].value)
     fobs = f(opt[0], opt[1])
-    sdecl = fobs * fobs - EPSS
+    # an observed value at least as good as the declared one (the declared point is a 6-decimal table entry)
+    from scipy.optimize import minimize
+    nm = minimize(lambda z: f(min(max(z[0], 0.0), 1.0), min(max(z[1], 0.0), 1.0)), opt, method="Nelder-Mead", options={"xatol": 1e-10, "fatol": 1e-13})
+    fbest = min(fobs, f(min(max(nm.x[0], 0.0), 1.0), min(max(nm.x[1], 0.0), 1.0)))
+    sdecl = max(fobs * fobs, fbest * fbest) - EPSS
     sallow = optv * optv * (1 + TVREL) ** 2
     h = H2D
     eg = (LS3 * h * h / 6 + EPSS / h) * safe
@@ -62,7 +66,7 @@ def grishagin_record(fn, maxdepth=16):
     tree = build(0.0, 0.0, 1.0, 0)
     qq = lambda m: [[q(float(t)) for t in row] for row in m]    # noqa: E731
     return {"kind": "grishagin", "fn": fn, "A": qq(F.af), "B": qq(F.bf), "C": qq(F.cf), "D": qq(F.df), "opt": [q(t) for t in opt], "optv": q(optv),
-            "fobs": q(fobs), "h": q(h), "epss": q(EPSS), "tvrel": q(TVREL), "delta": q(DELTA), "tree": tree, "_leaves": stats[0], "_unresolved": stats[1]}
+            "fobs": q(fobs), "fbest": q(fbest), "h": q(h), "epss": q(EPSS), "tvrel": q(TVREL), "delta": q(DELTA), "tree": tree, "_leaves": stats[0], "_unresolved": stats[1]}
 
 
 def _grec(fn):
@@ -102,7 +106,7 @@ def strongin_refutation_samples(ctx, n=20000):
 
 def run_2d(ctx, counts, undecided, instances):
     qk = ctx.quick
-    fns = ctx.rng.sample(range(1, 101), 2) if qk else list(range(1, 101))
+    fns = ctx.rng.sample(range(1, 101), 1) if qk else list(range(1, 101))
     with mp.get_context("fork").Pool(min(16, len(fns))) as pool:
         recs = pool.map(_grec, fns, chunksize=1)
     jobs, metas = [], []
